@@ -8,6 +8,8 @@ import (
 	"net/http/httptest"
 	"regexp"
 	"strings"
+	"sync/atomic"
+	"time"
 
 	"github.com/vicanso/elton"
 	"github.com/vicanso/pike/cache"
@@ -53,7 +55,7 @@ func c13Expected(accept string, hasBr, hasGzip bool, tooSmall []bool, typeMatch 
 	return out
 }
 
-var c13Accepts = []string{"", "gzip", "br", "gzip, br", "br, gzip", "deflate", "identity", "zstd", "gzip, deflate, br", "pack200-gzip", "compress, pack200-gzip", "GZIP"}
+var c13Accepts = []string{"", "gzip", "br", "gzip, br", "br, gzip", "deflate", "identity", "zstd", "gzip, deflate, br", "pack200-gzip", "compress, pack200-gzip", "GZIP", "br;q=0.9, gzip;q=0.8", "gzip;q=1.0, identity;q=0.5"}
 
 func c13FillOnce(resp *cache.HTTPResponse, accept string) (ce string, body []byte, hdr http.Header, err error) {
 	req := httptest.NewRequest("GET", "/", nil)
@@ -184,7 +186,7 @@ func c13Table(r *hx.Run, rnd *rand.Rand, bodiesPerCell int) {
 	}
 	r.Set("table_cells", cells)
 	r.Set("exhaustive", true)
-	r.Set("exhaustive_scope", "accept (12 values) x stored subset (7) x size {min-1,min,min+1,min+4000} x min {1024,100} x filter {default,custom} x 6 content types x cacheable {no,yes}")
+	r.Set("exhaustive_scope", "accept (14 values) x stored subset (7) x size {min-1,min,min+1,min+4000} x min {1024,100} x filter {default,custom} x 6 content types x cacheable {no,yes}")
 }
 
 func keysOf(m map[string]bool) []string {
@@ -211,7 +213,9 @@ func c13EndToEnd(r *hx.Run, rnd *rand.Rand, n int) {
 		var size int
 		var ct, kind string
 		var cacheable bool
-		w.Farm.SetScript(func(f *hx.Fetch) *hx.Reply {
+		w.Pts = hx.InstallPoints(r.Seed)
+		var script func(f *hx.Fetch) *hx.Reply
+		script = func(f *hx.Fetch) *hx.Reply {
 			h := [][2]string{{"Content-Type", ct}}
 			if cacheable {
 				h = append(h, [2]string{"Cache-Control", "max-age=600"})
@@ -219,7 +223,8 @@ func c13EndToEnd(r *hx.Run, rnd *rand.Rand, n int) {
 				h = append(h, [2]string{"Cache-Control", "no-cache"})
 			}
 			return &hx.Reply{Status: 200, Header: h, Body: hx.PRNGBytes(f.ID, size, kind)}
-		})
+		}
+		w.Farm.SetScript(script)
 		filter := regexp.MustCompile(`text|javascript|json|wasm|xml|font`)
 		if sp.filter != "" {
 			filter = regexp.MustCompile(sp.filter)
@@ -233,6 +238,39 @@ func c13EndToEnd(r *hx.Run, rnd *rand.Rand, n int) {
 			uri := fmt.Sprintf("/c13/%d/%d", si, i)
 			typeMatch := filter.MatchString(ct)
 			var rawOrig []byte
+			if cacheable && size > sp.minLen && typeMatch && i%3 == 0 {
+				// a burst on the cold key: the response is compressed once when stored, not per coalesced request
+				gate := make(chan struct{})
+				bursturi := uri + "/burst"
+				var held atomic.Int64
+				w.Farm.SetScript(func(f *hx.Fetch) *hx.Reply {
+					held.Add(1)
+					return &hx.Reply{Status: 200, Header: [][2]string{{"Content-Type", ct}, {"Cache-Control", "max-age=600"}}, Body: hx.PRNGBytes(f.ID, size, kind), Gate: gate}
+				})
+				baseReg := w.Pts.Count("get.registered")
+				gz0, br0 := compress.VerifCounts()
+				done := make(chan []*hx.Result, 1)
+				go func() {
+					done <- burst(w, 5, hx.Req{Addr: w.Addr, Host: "c13.example", URI: bursturi, Header: http.Header{"Accept-Encoding": []string{"gzip"}}})
+				}()
+				hx.WaitUntil(10*time.Second, func() bool { return w.Pts.Count("get.registered")-baseReg >= 4 })
+				close(gate)
+				results := <-done
+				gz1, br1 := compress.VerifCounts()
+				w.Farm.SetScript(script)
+				r.Add("e2e_cold_bursts_on_compressible_keys", 1)
+				okAll := true
+				for _, x := range results {
+					if x.Err != nil || x.Status != 200 || x.CE != "gzip" {
+						okAll = false
+					}
+				}
+				if !okAll {
+					r.Violate("negotiation_differs_from_table", map[string]string{"accept_class": "burst"}, "a coalesced request accepting gzip on a compressible cacheable key was not sent gzip", briefs(results), map[string]interface{}{"raw_len": size, "content_type": ct})
+				} else if gz1-gz0 != 1 || br1-br0 != 1 {
+					r.Violate("recompressed_per_request", map[string]string{"path": "coalesced_waiters"}, fmt.Sprintf("a burst of 5 on a cold compressible key ran the compressors gzip x%d, br x%d (expected once each, when stored)", gz1-gz0, br1-br0), briefs(results), map[string]interface{}{"raw_len": size, "content_type": ct, "held_fetches": held.Load()})
+				}
+			}
 			for step := 0; step < 4; step++ {
 				accept := c13Accepts[rnd.Intn(len(c13Accepts))]
 				gz0, br0 := compress.VerifCounts()
@@ -321,7 +359,7 @@ func c13EndToEnd(r *hx.Run, rnd *rand.Rand, n int) {
 }
 
 func c13(r *hx.Run) {
-	r.Rule = "exhaustive table at the Fill level: accept (12 values incl. tokens containing 'gzip') x stored subset of raw/gzip/br (7) x raw size {min-1,min,min+1,min+4000} x min {1024,100} x filter {default,custom} x 6 content types x {direct, after Cacheable()}, N random bodies per cell, against the table of the statement/docs (where raw and visible lengths straddle the threshold both outcomes are accepted); then end-to-end through servers with default/configured thresholds and filters: 4 requests per key with random Accept-Encoding, compressor call counters around every hit, stored variants compared with the best-compression profile's output. Non-trivial/distinct = table cell / e2e key class."
+	r.Rule = "exhaustive table at the Fill level: accept (14 values incl. tokens containing 'gzip') x stored subset of raw/gzip/br (7) x raw size {min-1,min,min+1,min+4000} x min {1024,100} x filter {default,custom} x 6 content types x {direct, after Cacheable()}, N random bodies per cell, against the table of the statement/docs (where raw and visible lengths straddle the threshold both outcomes are accepted); then end-to-end through servers with default/configured thresholds and filters: 4 requests per key with random Accept-Encoding, compressor call counters around every hit, stored variants compared with the best-compression profile's output. Non-trivial/distinct = table cell / e2e key class."
 	r.Assume = []string{"Accept-Encoding is a plain list of codings (no q-values)", "gzip/brotli encoders are deterministic (same level => same bytes)"}
 	rnd := rand.New(rand.NewSource(r.Seed))
 	c13Table(r, rnd, r.Pick(1, 8))
